@@ -60,10 +60,6 @@ impl Clone for GreenNode { #[verifier::external_body] fn clone(&self) -> (r: Gre
 impl SyntaxError {
     /// the range a diagnostic carries, as (start, end) byte offsets
     pub open spec fn sp_range(&self) -> (nat, nat) { (self.1.start.raw as nat, self.1.end.raw as nat) }
-    /// syntax_error.rs: `Self(message.into(), range)` (`message: impl Into<String>` written as a named type parameter)
-    #[verifier::external_body] pub fn new<M: Into<String>>(message: M, range: TextRange) -> (r: SyntaxError) ensures r.1 == range { unimplemented!() }
-    /// syntax_error.rs: `Self(message.into(), TextRange::empty(offset))`
-    #[verifier::external_body] pub fn new_at_offset<M: Into<String>>(message: M, offset: TextSize) -> (r: SyntaxError) ensures r.1.start == offset, r.1.end == offset { unimplemented!() }
 }
 /// every diagnostic has start <= end <= length of the text (C12)
 pub open spec fn in_text(e: SyntaxError, blen: nat) -> bool { e.sp_range().0 <= e.sp_range().1 && e.sp_range().1 <= blen }
